@@ -181,11 +181,14 @@ static std::string KY(const Cfg& c, const std::string& base, bool hs = false) {
 }
 
 // convergence-failure hook: inside the documented domain a panic is a violation; in the large-f / high-scale regimes an event
-static void judge_panic(Ctx& ctx, const Cfg& c, bool forward, bool hs, bool judged_domain, const std::string& cls, const J& in) {
+static void judge_panic(Ctx& ctx, const Cfg& c, bool forward, bool hs, bool judged_domain, const std::string& cls, const J& in, bool at_branch_point = false) {
   uint64_t n = forward ? c.panic_f : c.panic_r;
   if (!n) return;
   std::string site = std::string(c.exact() ? "exact" : "series") + (forward ? "-forward" : "-reverse");
-  if (c.largef) ctx.event("hook: convergence failure (panic) in " + site + " on a large-f rung");
+  // lead's decision: Newton exhausting its iterations at the equator within a few ulp of the branch point (REF unavailable there,
+  // the round trip law still applies) is recorded, not judged
+  if (at_branch_point) ctx.event("hook: convergence failure (panic) in " + site + " within 4 ulp of the branch point on the equator");
+  else if (c.largef) ctx.event("hook: convergence failure (panic) in " + site + " on a large-f rung");
   else if (hs) ctx.event("hook: convergence failure (panic) in " + site + " at an extendp-high-scale point");
   else if (!judged_domain) ctx.event("hook: convergence failure (panic) in " + site + " outside the judged domain");
   else ctx.viol("hook:C06/panic/" + site, cls, J(in).u("panics", n));
@@ -223,7 +226,8 @@ static void check_point(Ctx& ctx, const Cfg& c, double lon0, double lat, double 
   const uint64_t pf_primary = c.panic_f;
   bool in_ext_domain = !c.ext() || (lat >= 0 && ad <= 90 && dlon >= 0) || (lat < 0 && lat > -90 && dlon >= br && dlon <= 90);
   if (c.ext() && !in_ext_domain) { ctx.event("extendp: point outside the documented extendp domain, not judged"); return; }
-  c.panic_f = pf_primary; judge_panic(ctx, c, true, hs, true, cls, in);   // series Forward has no Newton iteration; exact: whole domain is documented
+  const bool at_bp = c.exact() && std::fabs(lat) < 1e-300 && std::fabs(ad - br) <= 4 * ref::ulp_d(br);
+  c.panic_f = pf_primary; judge_panic(ctx, c, true, hs, true, cls, in, at_bp);   // series Forward has no Newton iteration; exact: whole domain is documented
   bool on_cut = c.exact() && !c.ext() && lat == 0 && ad >= br && ad <= 180 - br;   // the cut itself: y is two-valued
   // ---- REF
   RefPt p;
@@ -278,7 +282,7 @@ static void check_point(Ctx& ctx, const Cfg& c, double lon0, double lat, double 
     double la = vh::sentinel(5), lo = vh::sentinel(6), g2 = vh::sentinel(7), k2 = vh::sentinel(8);
     c.Reverse(lon0, x, y, la, lo, g2, k2);
     bool series_judged = c.exact() || ptol > 0;
-    judge_panic(ctx, c, false, hs, series_judged, cls, in);
+    judge_panic(ctx, c, false, hs, series_judged, cls, in, at_bp);
     if (c.largef && c.panic_r) ctx.event("large-f: Reverse(Forward) with a panic in Reverse");
     if (!(std::isfinite(la) && std::isfinite(lo) && std::isfinite(g2) && std::isfinite(k2))) {
       if (series_judged || c.exact()) ctx.viol(KY(c, "law:C06/" + kind + "/roundtrip/non-finite", hs), cls, J(in).f("x", x).f("y", y).f("lat2", la).f("lon2", lo));
